@@ -202,6 +202,8 @@ class NucleationMonitor:
     def check_sites(self, t, x, p, v):
         F, m = self.F, self.m
         self.cnt['site_checks'] += 1
+        self.last_sites = getattr(self, 'last_sites', {})
+        self.last_sites[p] = v
         if not (v >= 0) or not math.isfinite(v):
             F.add('C14.sites_nonneg', f't={t}: available nucleation sites of phase {p} = {v!r}', where='_calcNucleationSites')
         site = self.sites[p]
@@ -288,6 +290,12 @@ class NucleationMonitor:
                 kB = refs.RGAS / refs.AVO
                 Z = math.sqrt(3 * c_ / (4 * math.pi)) * self.VmB[p] * math.sqrt(gamma / (kB * T)) / (2 * math.pi * refs.AVO * Rc * Rc)
                 jss = Z * be * math.exp(-Gc / (kB * T))
+                # incubation factor in [0,1]: the recorded rate never exceeds steady-state rate per site x available sites
+                ns = getattr(self, 'last_sites', {}).get(p)
+                if ns is not None:
+                    cnt['incubation_checks'] = cnt.get('incubation_checks', 0) + 1
+                    if J > jss * ns * (1 + 1e-9) + 1e-300:
+                        F.add('C14.incubation_factor', f'step {n} phase {p}: recorded nucleation rate {J!r} exceeds steady-state rate per site {jss!r} x available sites {ns!r} (incubation factor would be {J / max(jss * ns, 1e-300)!r} > 1)', q='incubation')
                 key = p
                 prev = self.prev.get(key)
                 if self.iso and len(m.elements) == 1 and len(m.phases) == 1 and prev is not None and prev[0] > dG and jss > prev[1] * (1 + 1e-6) and not clamped and prev[2] == T:
